@@ -115,28 +115,60 @@ theorem firstSwitch_sem (env : Env) (t : TD) (a : Bool) (c0 : Choice) (h : first
 
 abbrev intLabel := intKindLabel
 
-theorem simple_under_int (env : Env) (k : TD) (hs : Simple env k = true) (hi : isIntKind (under env k) = true) :
+theorem under_ref_ne (env : Env) (id id' : Nat) : under env (.ref id) ≠ .ref id' := by
+  unfold under
+  cases hl : env.lookup id with
+  | none => simp [hl]
+  | some d => cases hd : d.under <;> simp [hl, hd]
+
+theorem under_ref_not_special (env : Env) (id : Nat) (sp : Special) : under env (.ref id) ≠ .special sp := by
+  unfold under
+  cases hl : env.lookup id with
+  | none => simp [hl]
+  | some d => cases hd : d.under <;> simp [hl, hd]
+
+/-- the types of an integer kind: time.Duration, the unnamed integer types, defined types with an integer underlying type -/
+theorem under_int_cases (env : Env) (k : TD) (hi : isIntKind (under env k) = true) :
     (k = .special .duration) ∨ (∃ p, under env k = .prim p ∧ p ≠ .chan ∧ p ≠ .complex ∧ firstSwitch k = none) := by
   cases k with
   | special s => cases s <;> simp [under, isIntKind] at hi; left; rfl
   | prim p => right; refine ⟨p, by simp [under], ?_, ?_, by simp [firstSwitch]⟩ <;> (intro h; subst h; simp [under, isIntKind] at hi)
   | ref id =>
     right
-    simp only [Simple] at hs
-    cases hu : under env (.ref id) <;> simp [hu] at hs <;> simp [hu, isIntKind] at hi
-    rename_i p
-    refine ⟨p, rfl, ?_, ?_, by simp [firstSwitch]⟩ <;> (intro h; subst h; simp at hi)
+    cases hu : under env (.ref id) <;> simp [hu, isIntKind] at hi
+    · rename_i p
+      refine ⟨p, rfl, ?_, ?_, by simp [firstSwitch]⟩ <;> (intro h; subst h; simp at hi)
+    · exact absurd hu (under_ref_not_special env id _)
   | _ => simp [under, isIntKind] at hi
 
+/-- a type of an integer kind: the construction does not touch `seen` -/
+theorem intKind_seen (env : Env) (f : Nat) (k : TD) (a : Bool) (s s' : Seen) (c : Choice)
+    (hi : isIntKind (under env k) = true) (h : codecF f env k a s = some (c, s')) : s' = s := by
+  cases f with
+  | zero => simp [codecF] at h
+  | succ f =>
+    rw [codecF] at h
+    rcases under_int_cases env k hi with rfl | ⟨p, hu, hc1, hc2, hfs⟩
+    · simp [firstSwitch] at h; exact h.2.symm
+    · simp only [hfs, hu] at h
+      have hn : (isRef k && isComposite (TD.prim p)) = false := by simp [isComposite]
+      simp only [hn, Bool.false_and, Bool.false_eq_true, if_false] at h
+      have hk : kindF (codecF f env) (structF f env) env k (.prim p) a s = some (.prim p, s) := by
+        unfold kindF
+        cases p <;> simp at hc1 hc2 <;> rfl
+      simp only [hk] at h
+      simp at h
+      exact h.2.symm
+
 /-- an integer kind without MarshalJSON / MarshalText on the value, not addressable: the plain integer encoder -/
-theorem intCodec (env : Env) (f : Nat) (k : TD) (s s' : Seen) (c : Choice) (hs : Simple env k = true)
+theorem intCodec (env : Env) (f : Nat) (k : TD) (s s' : Seen) (c : Choice)
     (hi : isIntKind (under env k) = true) (hj : implT env .mj k = false) (ht : implT env .mt k = false)
     (h : codecF f env k false s = some (c, s')) : c = intLabel (under env k) := by
   cases f with
   | zero => simp [codecF] at h
   | succ f =>
     rw [codecF] at h
-    rcases simple_under_int env k hs hi with rfl | ⟨p, hu, hc1, hc2, hfs⟩
+    rcases under_int_cases env k hi with rfl | ⟨p, hu, hc1, hc2, hfs⟩
     · simp [firstSwitch] at h; simp [under, intLabel, intKindLabel, h.1.symm]
     · simp only [hfs, hu] at h
       have hn : (isRef k && isComposite (TD.prim p)) = false := by simp [isComposite]
@@ -149,7 +181,27 @@ theorem intCodec (env : Env) (f : Nat) (k : TD) (s s' : Seen) (c : Choice) (hs :
       rw [← h.1, hu]
       simp [marshalerOverride, hj, ht, intLabel, intKindLabel]
 
-theorem stringCodec_sem (env : Env) (f : Nat) (k : TD) (s s' : Seen) (c : Choice) (hs : Simple env k = true)
+theorem integerType_int (u : TD) (h : isIntKind u = true) : isIntKind (integerType u) = true := by
+  unfold isIntKind at h
+  split at h <;> simp_all [integerType, isIntKind]
+
+theorem stringCodec_seen (env : Env) (f : Nat) (k : TD) (s s' : Seen) (c : Choice)
+    (hi : isIntKind (under env k) = true) (h : stringCodecF (codecF f env) env k s = some (c, s')) : s' = s := by
+  unfold stringCodecF at h
+  cases hc : codecF f env (if implT env .mj k || implPtr env .uj k then integerType (under env k) else k) false s with
+  | none => simp only [hc] at h; simp at h
+  | some r =>
+    obtain ⟨c1, s1⟩ := r
+    simp only [hc] at h
+    simp at h
+    rw [← h.2]
+    refine intKind_seen env f _ false s s1 c1 ?_ hc
+    split
+    · have := integerType_int _ hi
+      cases hu : integerType (under env k) <;> simp [hu, isIntKind] at this <;> simpa [under, hu, isIntKind] using this
+    · exact hi
+
+theorem stringCodec_sem (env : Env) (f : Nat) (k : TD) (s s' : Seen) (c : Choice)
     (hi : isIntKind (under env k) = true) (ht : implT env .mt k = false)
     (h : stringCodecF (codecF f env) env k s = some (c, s')) : c = .quoted (intLabel (under env k)) := by
   unfold stringCodecF at h
@@ -163,11 +215,11 @@ theorem stringCodec_sem (env : Env) (f : Nat) (k : TD) (s s' : Seen) (c : Choice
     congr 1
     by_cases hcond : (implT env .mj k || implPtr env .uj k) = true
     · simp only [hcond, if_true] at hc
-      rcases simple_under_int env k hs hi with rfl | ⟨p, hu, hc1, hc2, _⟩
+      rcases under_int_cases env k hi with rfl | ⟨p, hu, hc1, hc2, _⟩
       · simp [implT, implPtr, declared, specialMeths, noMeths, Meths.get, under, isPtrKind, isIfaceKind] at hcond
       · rw [hu] at hc ⊢
         have hi' : isIntKind (under env (.prim p)) = true := by rw [hu] at hi; simpa [under] using hi
-        have := intCodec env f (.prim p) s s1 c1 (by simp [Simple]) hi'
+        have := intCodec env f (.prim p) s s1 c1 hi'
           (by simp [implT, declared, noMeths, Meths.get]) (by simp [implT, declared, noMeths, Meths.get])
           (by simpa [integerType] using hc)
         simpa [under] using this
@@ -175,15 +227,15 @@ theorem stringCodec_sem (env : Env) (f : Nat) (k : TD) (s s' : Seen) (c : Choice
       simp only [hcond', Bool.false_eq_true, if_false] at hc
       have hj : implT env .mj k = false := by
         cases hh : implT env .mj k <;> simp [hh] at hcond' ⊢
-      exact intCodec env f k s s1 c1 hs hi hj ht hc
+      exact intCodec env f k s s1 c1 hi hj ht hc
 
-/-- the key encoder is the one `resolveKeyName` describes -/
-theorem mapKey_sem (env : Env) (f : Nat) (k : TD) (s s' : Seen) (r : Option Choice) (hs : Simple env k = true)
-    (hk : keyOK env k = true) (h : mapKeyF (codecF f env) env k s = some (r, s')) : r = stdKey env k := by
+/-- the key encoder is the one `resolveKeyName` describes (`none` = the map type is unsupported), and `seen` is not
+touched -/
+theorem mapKey_sem (env : Env) (f : Nat) (k : TD) (s s' : Seen) (r : Option Choice)
+    (h : mapKeyF (codecF f env) env k s = some (r, s')) : r = stdKey env k ∧ s' = s := by
   unfold mapKeyF at h
   unfold stdKey
   simp only at h ⊢
-  unfold keyOK at hk
   by_cases hstr : isStringKind (under env k) = true
   · -- string kind: the string itself, whatever methods the type has
     simp only [hstr, if_true] at h ⊢
@@ -192,24 +244,27 @@ theorem mapKey_sem (env : Env) (f : Nat) (k : TD) (s s' : Seen) (r : Option Choi
       by_cases h1 : (!implT env .mt k || !implPtr env .ut k) = true
       · simp only [h1, if_true] at h
         simp at h
-        exact h.1.symm
-      · simp only [h1] at h; simp at h; exact h.1.symm
-    · simp only [h0] at h; simp at h; exact h.1.symm
+        exact ⟨h.1.symm, h.2.symm⟩
+      · simp only [h1] at h; simp at h; exact ⟨h.1.symm, h.2.symm⟩
+    · simp only [h0] at h; simp at h; exact ⟨h.1.symm, h.2.symm⟩
   · have hstr' : isStringKind (under env k) = false := by simpa using hstr
     simp only [hstr', Bool.false_eq_true, if_false] at h ⊢
     by_cases htm : implT env .mt k = true
     · -- TextMarshaler on the key type itself
       simp only [htm, Bool.true_or, if_true] at h ⊢
       by_cases htu : implPtr env .ut k = true
-      · simp [htu] at h; exact h.1.symm
+      · simp [htu] at h; exact ⟨h.1.symm, h.2.symm⟩
       · have htu' : implPtr env .ut k = false := by simpa using htu
         simp only [htu', Bool.not_true, Bool.not_false, Bool.or_true, if_true, Bool.false_eq_true, if_false] at h
         by_cases hi : isIntKind (under env k) = true
         · simp only [hi, if_true] at h
           cases hsc : stringCodecF (codecF f env) env k s with
           | none => simp [hsc] at h
-          | some q => obtain ⟨q1, q2⟩ := q; simp [hsc] at h; exact h.1.symm
-        · simp [hi] at h; exact h.1.symm
+          | some q =>
+            obtain ⟨q1, q2⟩ := q
+            have := stringCodec_seen env f k s q2 q1 hi hsc
+            simp [hsc] at h; exact ⟨h.1.symm, by rw [← h.2, this]⟩
+        · simp [hi] at h; exact ⟨h.1.symm, h.2.symm⟩
     · have htm' : implT env .mt k = false := by simpa using htm
       simp only [htm', Bool.false_or, Bool.false_eq_true, if_false] at h ⊢
       by_cases hi : isIntKind (under env k) = true
@@ -220,21 +275,28 @@ theorem mapKey_sem (env : Env) (f : Nat) (k : TD) (s s' : Seen) (r : Option Choi
           | none => simp [hsc] at h
           | some q =>
             obtain ⟨q1, q2⟩ := q
+            have hsn := stringCodec_seen env f k s q2 q1 hi hsc
             simp [hsc] at h
-            rw [← h.1, stringCodec_sem env f k s q2 q1 hs hi htm' hsc]
+            rw [← h.1, ← h.2, stringCodec_sem env f k s q2 q1 hi htm' hsc]
+            exact ⟨rfl, hsn⟩
         · have htu' : implPtr env .ut k = false := by simpa using htu
           simp only [htu', Bool.false_eq_true, if_false] at h
           cases hsc : stringCodecF (codecF f env) env k s with
           | none => simp [hsc] at h
           | some q =>
             obtain ⟨q1, q2⟩ := q
+            have hsn := stringCodec_seen env f k s q2 q1 hi hsc
             simp [hsc] at h
-            rw [← h.1, stringCodec_sem env f k s q2 q1 hs hi htm' hsc]
+            rw [← h.1, ← h.2, stringCodec_sem env f k s q2 q1 hi htm' hsc]
+            exact ⟨rfl, hsn⟩
       · have hi' : isIntKind (under env k) = false := by simpa using hi
-        have htu : implPtr env .ut k = false := by
-          simp [hstr', hi', htm'] at hk; exact hk
-        simp [hi', htu] at h ⊢
-        exact h.1.symm
+        -- neither a string nor an integer kind and no MarshalText: unsupported, with or without UnmarshalText on *K
+        by_cases htu : implPtr env .ut k = true
+        · simp [hi', htu, hstr'] at h ⊢
+          exact ⟨h.1.symm, h.2.symm⟩
+        · have htu' : implPtr env .ut k = false := by simpa using htu
+          simp [hi', htu'] at h ⊢
+          exact ⟨h.1.symm, h.2.symm⟩
 
 /-- method sets: what T has, *T has (T not of pointer or interface kind) -/
 theorem implT_implPtr_prim (env : Env) (m : Meth) (e : TD) (p : Kind) (hu : under env e = .prim p)
@@ -359,12 +421,6 @@ theorem fast_sem (env : Env) (v : TD) (vc : Choice) (h : fastMapValue v = some v
 theorem norm_inline_if (b : Bool) (c : Choice) : norm (if b then .inlineValue c else c) = norm c := by
   cases b <;> simp [norm]
 
-theorem under_ref_ne (env : Env) (id id' : Nat) : under env (.ref id) ≠ .ref id' := by
-  unfold under
-  cases hl : env.lookup id with
-  | none => simp [hl]
-  | some d => cases hd : d.under <;> simp [hl, hd]
-
 theorem not_special_of_firstSwitch_ptr (e : TD) (h : firstSwitch (.ptr e) = none) : ∀ s, e ≠ .special s := by
   intro s hs; subst hs; simp [firstSwitch] at h
 
@@ -462,7 +518,7 @@ theorem kind_sem (env : Env) (f : Nat) (ih : IH env f) (t : TD) (a : Bool) (s s1
           | none => simp [hkey] at h
           | some r2 =>
             obtain ⟨kr, s3⟩ := r2
-            have hstd := mapKey_sem env f k s2 s3 kr hs.1 hk.1.1 hkey
+            have hstd := (mapKey_sem env f k s2 s3 kr hkey).1
             simp only [hkey] at h
             cases kr with
             | none =>
